@@ -26,6 +26,32 @@ type vC04World struct {
 	env   *vC04Env
 	names []string
 	ids   map[string]int
+	// spell: how a name is written when it is an alias TARGET (lower case, or mixed case:
+	// names compare without regard to letter case, RFC 4343). One spelling per name and world,
+	// so that the code's exact-string list of visited targets agrees with name identity.
+	spell map[string]string
+}
+
+func (w *vC04World) target(name string) string {
+	if s, ok := w.spell[name]; ok {
+		return s
+	}
+	return name
+}
+
+// vC04MixCase re-spells a name with every other letter in upper case.
+func vC04MixCase(name string) string {
+	b := []byte(name)
+	up := true
+	for i, c := range b {
+		if c >= 'a' && c <= 'z' {
+			if up {
+				b[i] = c - 'a' + 'A'
+			}
+			up = !up
+		}
+	}
+	return string(b)
 }
 
 const vC04Zone = "tree.c04.test."
@@ -90,7 +116,7 @@ func (w *vC04World) genScript(r *rand.Rand, i int) *vC04Script {
 				j = len(w.names) - 1
 			}
 		}
-		return w.names[j]
+		return w.target(w.names[j])
 	}
 	shape := r.Intn(15)
 	if i == len(w.names)-1 && shape >= 4 && shape <= 8 {
@@ -106,14 +132,16 @@ func (w *vC04World) genScript(r *rand.Rand, i int) *vC04Script {
 	case shape == 8: // alias with the target's address in the same response
 		tgt := other()
 		m.Answer = append(m.Answer, &dns.CNAME{Hdr: hdr(name, dns.TypeCNAME), Target: tgt})
-		if tgt != name {
-			m.Answer = append(m.Answer, &dns.A{Hdr: dns.RR_Header{Name: tgt, Rrtype: dns.TypeA, Class: dns.ClassINET, Ttl: uint32(1 + r.Intn(600))}, A: []byte{192, 0, 2, 77}})
+		if !strings.EqualFold(tgt, name) {
+			m.Answer = append(m.Answer, &dns.A{Hdr: dns.RR_Header{Name: strings.ToLower(tgt), Rrtype: dns.TypeA, Class: dns.ClassINET, Ttl: uint32(1 + r.Intn(600))}, A: []byte{192, 0, 2, 77}})
 		}
 	case shape == 9:
 		m.Rcode = dns.RcodeNameError
 		m.Ns = append(m.Ns, vC04SOA(vC04Zone, ttl, []uint32{2, 7, 30, 600}[r.Intn(4)]))
 	case shape == 10:
 		m.Ns = append(m.Ns, vC04SOA(vC04Zone, ttl, []uint32{2, 7, 30, 600}[r.Intn(4)]))
+	case shape == 11: // an alias onto its own owner, possibly re-spelled in another letter case: a loop (SERVFAIL, nothing admitted)
+		m.Answer = append(m.Answer, &dns.CNAME{Hdr: hdr(name, dns.TypeCNAME), Target: w.target(name)})
 	case shape == 12: // bare NXDOMAIN: no SOA, nothing in any section (cached for the floor)
 		m.Rcode = dns.RcodeNameError
 	case shape == 13: // bare NODATA: empty NOERROR
@@ -146,6 +174,7 @@ type vC04TreePlan struct {
 		Target  int    `json:"target"` // alias target: index into names
 		SoaMin  uint32 `json:"soa_min"`
 		LeaseMs int64  `json:"lease_ms"` // 0: no lease
+		Respell bool   `json:"respell"`  // aliases onto this name spell it in mixed case
 	} `json:"names"`
 	Steps []struct {
 		Op    string `json:"op"` // ask | shift | purge
@@ -168,9 +197,9 @@ func (w *vC04World) planScript(plan *vC04TreePlan, i int) *vC04Script {
 	case "addr":
 		m.Answer = append(m.Answer, &dns.A{Hdr: hdr(name, dns.TypeA), A: []byte{192, 0, 2, byte(10 * i)}})
 	case "alias":
-		m.Answer = append(m.Answer, &dns.CNAME{Hdr: hdr(name, dns.TypeCNAME), Target: w.names[ps.Target]})
+		m.Answer = append(m.Answer, &dns.CNAME{Hdr: hdr(name, dns.TypeCNAME), Target: w.target(w.names[ps.Target])})
 	case "alias+addr":
-		m.Answer = append(m.Answer, &dns.CNAME{Hdr: hdr(name, dns.TypeCNAME), Target: w.names[ps.Target]})
+		m.Answer = append(m.Answer, &dns.CNAME{Hdr: hdr(name, dns.TypeCNAME), Target: w.target(w.names[ps.Target])})
 		m.Answer = append(m.Answer, &dns.A{Hdr: hdr(w.names[ps.Target], dns.TypeA), A: []byte{192, 0, 2, 77}})
 	case "nx-soa":
 		m.Rcode = dns.RcodeNameError
@@ -228,10 +257,14 @@ func vC04TreeHistory(out *vC04Out, r *rand.Rand, budget int, plan *vC04TreePlan)
 	if plan != nil {
 		nn = len(plan.Names)
 	}
+	w.spell = map[string]string{}
 	for i := 0; i < nn; i++ {
 		name := fmt.Sprintf("n%d.%s", i+1, vC04Zone)
 		w.names = append(w.names, name)
 		w.ids[name] = i + 1
+		if (plan == nil && r.Intn(3) == 0) || (plan != nil && plan.Names[i].Respell) {
+			w.spell[name] = vC04MixCase(name)
+		}
 	}
 	for i := range w.names {
 		if plan != nil {
